@@ -1379,6 +1379,8 @@ def assume(f):
         raise Realised("symbolic assumption outside an exploration")
     CTX.pc.append(f)
     CTX.feas.add(f.z3())
+    if not CTX._check(z3.BoolVal(True)):
+        raise Infeasible()          # the assumption contradicts the path: never continue on (and "prove" things from) an empty path
 
 
 def lemma(f):
